@@ -102,6 +102,7 @@ func runMono(cp casePlan, st *rocks.RocksDBStore, res *caseResult) {
 		keys    []concKey
 		started uint64 // batches whose Mutate has been called
 		done    uint64 // batches whose Mutate has returned
+		aborted uint32 // the writer gave up (Mutate error)
 	}
 	gs := make([]*group, groups)
 	for g := range gs {
@@ -140,6 +141,7 @@ func runMono(cp casePlan, st *rocks.RocksDBStore, res *caseResult) {
 				atomic.StoreUint64(&grp.started, v)
 				if err := st.Mutate(muts, nil); err != nil {
 					report("Mutate-error", fmt.Sprintf("group %d batch %d: %v", g, v, err))
+					atomic.StoreUint32(&grp.aborted, 1)
 					return
 				}
 				atomic.StoreUint64(&grp.done, v)
@@ -155,8 +157,13 @@ func runMono(cp casePlan, st *rocks.RocksDBStore, res *caseResult) {
 				var floor uint64 // greatest version this reader has seen in this group
 				var floorAt string
 				var n, overl, changes int64
+				defer func() {
+					atomic.AddInt64(&readsChecked, n)
+					atomic.AddInt64(&readsOverlapping, overl)
+					atomic.AddInt64(&versionChanges, changes)
+				}()
 				for pass := 0; ; pass++ {
-					finished := atomic.LoadUint64(&grp.done) == batches
+					finished := atomic.LoadUint64(&grp.done) == batches || atomic.LoadUint32(&grp.aborted) == 1
 					order := rr.Perm(len(grp.keys))
 					switch rr.Intn(3) {
 					case 0:
@@ -212,9 +219,6 @@ func runMono(cp casePlan, st *rocks.RocksDBStore, res *caseResult) {
 						break
 					}
 				}
-				atomic.AddInt64(&readsChecked, n)
-				atomic.AddInt64(&readsOverlapping, overl)
-				atomic.AddInt64(&versionChanges, changes)
 			}(g, rd)
 		}
 	}
